@@ -64,6 +64,12 @@ def run(ck: Checker):
                        f'add_pairwise_if_then_else{kw or ""}: r_i = ite(if_i, then_i, else_i) in order', kwargs=kw)
     ck.floor('C09.GADGET', 9)
 
+    # ---- bounded template instantiation of the loop-built gadgets whose loop body has finitely many index cases
+    ck.rule('C09.FOLD', 'for-range templates instantiated for every small width that exhibits each index case (i < len(b), i >= len(b), i == len(in), i > len(in), first/last), on a host circuit that already has gates and outputs: '
+                        'add_equal (constant fits / does not fit), add_plus_one (every in/out width <= 3/4, both endiannesses, with and without outputs), add_sub_two_numbers (widths <= 3 x 3, both endiannesses)')
+    fold_templates(ck, B)
+    ck.floor('C09.FOLD', 3)
+
     # OUT-GUARD
     n_guard = 0
     for m, q, fn in R.gen_functions(repo, MODULES):
@@ -87,6 +93,7 @@ def run(ck: Checker):
     ck.need(n_guard >= 3, f'only {n_guard} guarded output changes found (3 confirmed)')
     R.check_add_only(ck, 'C09.ADD-ONLY', MODULES, host_in_rule='C09.HOST-IN')
     R.check_fresh_labels(ck, 'C09.ADD-ONLY', MODULES)
+    R.check_fresh_generated(ck, 'C09.ADD-ONLY', MODULES)
     ck.floor('C09.ADD-ONLY', 15)
     ck.floor('C09.HOST-IN', 8)
     R.check_args(ck, eff, 'C09.ARGS', MODULES)
@@ -96,3 +103,118 @@ def run(ck: Checker):
     n = R.check_placeholders(ck, 'C09.PLACEHOLDER', MODULES)
     ck.need(n >= 1, f'only {n} placeholder-using functions could be analysed')
     ck.assume('NOT DECIDED: exactness of subtraction chains, division, square root, the equality gadget and the plus-one carry chain (loop-built arithmetic)')
+
+
+def _num(bits, big_endian):
+    bits = list(bits)
+    if big_endian:
+        bits.reverse()
+    return sum(int(b) << i for i, b in enumerate(bits))
+
+
+def fold_templates(ck: Checker, B):
+    import itertools
+    from ..interp import InterpRaise
+    repo = ck.repo
+    T = B.types
+
+    def host(n_in):
+        c, names = B.host(n_in)
+        # the host already has a gate and an output of its own
+        c.emplace_gate('own', T['OR'], (names[0], names[0]))
+        c._outputs.append('own')
+        return c, names
+
+    # add_equal
+    em = repo.mod(R.ARITH + '.equality')
+    probs = []
+    n_cases = 0
+    for n in (1, 2, 3):
+        for num in range(0, (1 << n) + 3):
+            n_cases += 1
+            try:
+                c, names = host(n)
+                res = B.run(em.name, 'add_equal', c, list(names), num)
+            except InterpRaise as e:
+                probs.append(f'add_equal(width {n}, num {num}) raises {e.exc_name}')
+                continue
+            for vals in semantics.bools(n):
+                a = dict(zip(names, vals))
+                got = c.evaluate(res, a)
+                want = _num(vals, False) == num
+                if got != want:
+                    probs.append(f'add_equal(width {n}, num {num}) on operand value {_num(vals, False)} gives {got}')
+                    break
+            if c._outputs != ['own'] or c._inputs != names:
+                probs.append(f'add_equal(width {n}, num {num}) changed the interface of the host')
+    ck.check(not probs, 'C09.FOLD', em, em.func('add_equal'), f'add_equal: True exactly when the little-endian operand equals the constant, never when it does not fit ({n_cases} width/constant pairs)',
+             '; '.join(probs[:3]), construct='add_equal template')
+
+    # add_plus_one
+    gm = repo.mod(GEN)
+    probs = []
+    n_cases = 0
+    for n in (1, 2, 3):
+        for out_len in (1, 2, 3, 4):
+            for be in (False, True):
+                for outs in (False, True):
+                    for explicit in (False, True):
+                        if explicit is False and out_len != n + 1:
+                            continue
+                        n_cases += 1
+                        try:
+                            c, names = host(n + 1)
+                            # operands: one primary input and internal gates are allowed as operands
+                            ops = list(names[:n])
+                            kw = {'add_outputs': outs, 'big_endian': be}
+                            if explicit:
+                                kw['result_labels'] = [f'z{k}' for k in range(out_len)]
+                            res = B.run(gm.name, 'add_plus_one', c, list(ops), **kw)
+                        except InterpRaise as e:
+                            probs.append(f'add_plus_one(in {n}, out {out_len}, big_endian={be}, add_outputs={outs}) raises {e.exc_name}')
+                            continue
+                        if len(res) != out_len:
+                            probs.append(f'add_plus_one(in {n}, out {out_len}) returned {len(res)} bits')
+                            continue
+                        want_outs = ['own'] + (list(res) if outs else [])
+                        if c._outputs != want_outs:
+                            probs.append(f'add_plus_one(in {n}, out {out_len}, big_endian={be}, add_outputs={outs}): host outputs became {c._outputs}, expected {want_outs}')
+                        if c._inputs != names:
+                            probs.append('add_plus_one changed the inputs of the host')
+                        for vals in semantics.bools(n + 1):
+                            a = dict(zip(names, vals))
+                            x = _num(vals[:n], be)
+                            got = _num([c.evaluate(r, a) for r in res], be)
+                            if got != (x + 1) % (1 << out_len):
+                                probs.append(f'add_plus_one(in {n}, out {out_len}, big_endian={be}): {x} + 1 gives {got}')
+                                break
+                        if len(probs) > 4:
+                            break
+    ck.check(not probs, 'C09.FOLD', gm, gm.func('add_plus_one'), f'add_plus_one: (x + 1) mod 2^out for every small in/out width, both endiannesses, outputs appended only on request ({n_cases} instances)',
+             '; '.join(probs[:3]), construct='add_plus_one template')
+
+    # add_sub_two_numbers
+    sm = repo.mod(SUB)
+    probs = []
+    n_cases = 0
+    for na in (1, 2, 3, 4):
+        for nb in (1, 2, 3):
+            for be in (False, True):
+                n_cases += 1
+                try:
+                    c, names = host(na + nb)
+                    res = B.run(sm.name, 'add_sub_two_numbers', c, list(names[:na]), list(names[na:]), big_endian=be)
+                except InterpRaise as e:
+                    probs.append(f'add_sub_two_numbers({na}, {nb}, big_endian={be}) raises {e.exc_name}')
+                    continue
+                for vals in semantics.bools(na + nb):
+                    a = dict(zip(names, vals))
+                    A, Bv = _num(vals[:na], be), _num(vals[na:], be)
+                    got = _num([c.evaluate(r, a) for r in res], be)
+                    if len(res) != na or got != (A - Bv) % (1 << na):
+                        probs.append(f'add_sub_two_numbers(widths {na},{nb}, big_endian={be}): {A} - {Bv} gives {got} on {len(res)} bits')
+                        break
+                if c._outputs != ['own']:
+                    probs.append('add_sub_two_numbers changed the outputs of the host')
+    ck.check(not probs, 'C09.FOLD', sm, sm.func('add_sub_two_numbers'), f'add_sub_two_numbers: (a - b) mod 2^len(a) for widths up to 4 x 3, both endiannesses ({n_cases} instances)',
+             '; '.join(probs[:3]), construct='add_sub_two_numbers template')
